@@ -81,7 +81,7 @@ Theorem c16_will : forall st client st',
   | Some w =>
       let st1 := set_r_wills st (al_remove str_eqb client (r_wills st)) in
       r_wills st' = al_remove str_eqb client (r_wills st) /\
-      if utf8_valid (w_topic w) then
+      if will_deliverable w then
         exists st3 idxs,
           dl_matches (retain_update st1 (w_topic w) (will_publish w) (will_props w)) (w_topic w) = Ok (st3, idxs) /\
           forall i, match nthN (dl_logs (r_datalog st)) i with
